@@ -36,7 +36,7 @@ CHECKS = {
 E2_NOTE = ("Trusted base: the reference interpreter harness/src/refsolve.rs (naive CPS depth-first search, no resume state) with the "
            "reference built-ins, first checked against the repository's own documented answers; the program generators of harness/src/gen.rs; "
            "the small-scope hypothesis for the exhaustive families; beyond it only the scale families of harness/src/gen_scale.rs (one size parameter at a time - clauses, goals, variables, list length, nesting, retries - "
-           "at every boundary size up to 129, thorough 300) are covered. Programs on which the statements are silent (step budget, occurs check, arithmetic on unbound) are counted and skipped.")
+           "at every boundary size up to 129, thorough 300) and the interaction family of harness/src/gen_mix.rs (every ordered pair of 18 features x 7 program shapes, plus constants that print alike) are covered. Programs on which the statements are silent (step budget, occurs check, arithmetic on unbound) are counted and skipped.")
 
 CHECKS.update({
     "C01": ("e2", "model_checking", "bounded-exhaustive programs x queries x next_solution histories, reference interpreter in lock-step",
